@@ -33,7 +33,7 @@ MAIN_CLAUSES = ["used_le_supplied_call", "used_le_supplied_month", "ne_le_requir
                 "strict_priority", "priority_order_key", "fed_le_herd", "fed_eq_herd_iff_met", "fed_fraction",
                 "starving_remainder", "starving_nonneg"]
 RULE = (
-    "history = 8 (quick) / 12 (thorough) real herd runs (same generator as C06: seeded country incl. SWT alias and "
+    "history = 8 (quick) / 24 (thorough) real herd runs (same generator as C06: seeded country incl. SWT alias and "
     "world aggregate, strategy, horizon 24..120, serving order per-head table | fallback, optional head overrides, "
     "explicit monthly feed/grass deliveries k x month-0 need with k in [0,3] plus delivery faults); a case = one run "
     "(every feed_the_species call of every month is judged); non-trivial = >=2 species, >=24 months and >=1 month "
@@ -64,8 +64,8 @@ COMPONENTS = {
     "stub": [],
 }
 TIERS = {
-    "quick": {"histories": 448, "runs": 8, "budget_s": 100, "timeout": 120, "batch": 224, "shrink_s": 60},
-    "thorough": {"histories": 9600, "runs": 12, "budget_s": 800, "timeout": 180, "batch": 480, "shrink_s": 120},
+    "quick": {"histories": 320, "runs": 8, "budget_s": 150, "timeout": 120, "batch": 160, "shrink_s": 40},
+    "thorough": {"histories": 3000, "runs": 24, "budget_s": 840, "timeout": 300, "batch": 250, "shrink_s": 60},
 }
 
 MAX_REPORTS = 12
